@@ -196,6 +196,44 @@ def internal_stream(R):
                 else:
                     i += 1
             want.append(("regions " + " ".join(runs)).rstrip())
+    ml, mw = maps_stream(R)
+    return lines + ml, want + mw
+
+
+def maps_stream(R, n=None):
+    """split-file maps whose window ends lie far apart (more than 2^31, 2^32, 2^63), passed in any order: the sort, the
+    two searches and the bulk retrieval of pfn.c called directly"""
+    rng = R.rng
+    lines, want = [], []
+    for _ in range(n or (150 if R.tier == "quick" else 4000)):
+        k = rng.randint(1, 5)
+        pool = [rng.randint(1, 200), (1 << 31) + rng.randint(-3, 40), (1 << 32) + rng.randint(-3, 40), (1 << 33) + rng.randint(0, 9),
+                0x80000020, (1 << 63) + rng.randint(-2, 2), (1 << 64) - 1, rng.getrandbits(rng.randint(8, 64)) | 1, rng.randint(200, 5000)]
+        cuts = sorted(set(rng.sample(pool, min(k, len(pool)))))
+        wins, lo = [], rng.choice([0, 0, rng.randint(0, 40)])
+        for c in cuts:
+            if c > lo:
+                wins.append((lo, c)); lo = c
+        regs = []
+        for (a, b) in wins:
+            cnt = min(b - a, rng.choice([1, 1, 2, 7, 8, 9, 20]))
+            rp = rng.choice([a, b - cnt, min(b - cnt, a + rng.randint(0, 30)), max(a, b - cnt - rng.randint(0, 30))])
+            regs.append((a, b, rp, cnt))
+        iv = sorted((rp, rp + cnt) for (_, _, rp, cnt) in regs)
+        pts = [x for (u, v) in iv for x in (u - 1, u, v - 1, v, v + 1)] + [0, (1 << 64) - 1]
+        q = max(0, min(rng.choice(pts), (1 << 64) - 1))
+        first = max(0, min(rng.choice(pts) - rng.choice([0, 1, 7, 8, 9]), (1 << 64) - 2))
+        last = min(first + rng.choice([0, 1, 7, 8, 15, 16, 40, 63]), (1 << 64) - 1)
+        order = list(regs)
+        rng.shuffle(order)
+        lines.append("maps %d %d %d %s" % (q, first, last, " ".join("%d:%d:%d:%d" % r for r in order)))
+        inS = lambda x: any(u <= x < v for (u, v) in iv)
+        ge = [max(u, q) for (u, v) in iv if v > q]
+        c = q
+        while inS(c):
+            c = next(v for (u, v) in iv if u <= c < v)
+        S = {x for x in range(first, last + 1) if inS(x)}
+        want.append("maps %s set=%s clr=%d bits=%s" % (" ".join(str(b) for (_, b, _, _) in regs), min(ge) if ge else "-", c, expect_bits(S, first, last)))
     return lines, want
 
 
